@@ -140,6 +140,55 @@ fn nontrivial(c: &Case) -> bool {
 const KEYSETS: [&[&str]; 6] = [&["a"], &["b"], &["a", "b"], &["b", "a"], &["a", "c"], &["c"]];
 
 /// a merge map source with possibly nested merges (depth-limited), no duplicate keys inside one source
+// ---------------- byte-driven construction (libFuzzer target) ----------------------------------
+fn source_from_bytes(b: &mut engine::Bytes, depth: u32) -> Node {
+    const KEYS: [&str; 6] = ["a", "b", "c", "k", "x", "y"];
+    // an ordered selection of up to three distinct keys
+    let nk = b.below(4);
+    let mut ks: Vec<&str> = vec![];
+    for _ in 0..nk {
+        let k = b.pick(&KEYS);
+        if !ks.contains(&k) {
+            ks.push(k);
+        }
+    }
+    let t = b.u8() as u16;
+    if depth == 0 {
+        return Node::map(t % 2 == 0, ks.iter().enumerate().map(|(j, k)| (s(k), s(&format!("v{}{j}", t % 97)))).collect());
+    }
+    let mut entries: Vec<(Node, Node)> = ks.iter().enumerate().map(|(j, k)| (s(k), s(&format!("w{}{j}", t % 97)))).collect();
+    for _ in 0..b.below(3) {
+        let m = merge_value_from_bytes(b, depth - 1);
+        let p = b.below(5).min(entries.len());
+        entries.insert(p, (s("<<"), m));
+    }
+    Node::map(false, entries)
+}
+
+fn merge_value_from_bytes(b: &mut engine::Bytes, depth: u32) -> Node {
+    match b.below(9) {
+        0..=3 => source_from_bytes(b, depth),
+        4 | 5 => {
+            let n = b.below(3);
+            Node::seq(true, (0..n).map(|_| source_from_bytes(b, depth)).collect())
+        }
+        6 => {
+            let a = source_from_bytes(b, depth);
+            let c = source_from_bytes(b, 0);
+            Node::seq(false, vec![a, Node::seq(true, vec![c])])
+        }
+        _ => {
+            let ni = 2 + b.below(2);
+            let inner: Vec<Node> = (0..ni).map(|_| source_from_bytes(b, 0)).collect();
+            let no = b.below(3);
+            let mut items: Vec<Node> = (0..no).map(|_| source_from_bytes(b, 0)).collect();
+            let nested = Node::seq(true, inner);
+            if b.bool() { items.insert(0, nested) } else { items.push(nested) }
+            Node::seq(true, items)
+        }
+    }
+}
+
 fn arb_source(depth: u32) -> BoxedStrategy<Node> {
     let keys = prop::sample::subsequence(vec!["a", "b", "c", "k", "x", "y"], 0..4).prop_shuffle();
     if depth == 0 {
@@ -207,6 +256,41 @@ impl Property for C03 {
             }
         }
         out
+    }
+    /// libFuzzer input: layout bits, policy, target, own keys, then up to three merge entries
+    /// (value, position); mapping sources may go through an alias
+    fn fuzz_decode(data: &[u8]) -> Option<(&'static str, Case, bool)> {
+        let mut b = engine::Bytes::new(data);
+        let lb = b.u16() as u32;
+        let dup = b.pick(&Dup::ALL);
+        let target = b.pick(&[Target::Untyped, Target::ShapeStr, Target::Struct]);
+        let anchor_it = b.bool();
+        const KEYS: [&str; 6] = ["a", "b", "c", "k", "x", "y"];
+        let mut own: Vec<&str> = vec![];
+        for _ in 0..b.below(4) {
+            let k = b.pick(&KEYS);
+            if !own.contains(&k) {
+                own.push(k);
+            }
+        }
+        let mut entries: Vec<(Node, Node)> = own.iter().enumerate().map(|(j, k)| (s(k), s(&format!("o{j}")))).collect();
+        let mut defs = vec![];
+        for i in 0..b.below(4) {
+            let m = merge_value_from_bytes(&mut b, 2);
+            let p = b.below(5).min(entries.len());
+            if anchor_it && matches!(m.kind, Kind::Map { .. }) && target != Target::Struct {
+                let name = format!("r{i}");
+                defs.push(m.anchored(&name));
+                entries.insert(p, (s("<<"), Node::alias(&name)));
+            } else {
+                entries.insert(p, (s("<<"), m));
+            }
+        }
+        let t = Node::map(false, entries);
+        let doc = if defs.is_empty() { t } else { Node::map(false, vec![(s("defs"), Node::seq(false, defs)), (s("t"), t)]) };
+        let c = Case { doc, layout: Layout::from_bits(lb), dup, target, expect: "ok".into() };
+        let nt = nontrivial(&c);
+        Some(("fuzz-nested", c, nt))
     }
     fn generate(ctx: &mut Ctx<Self>) {
         // ---------------- exhaustive small shapes --------------------------------------
